@@ -194,3 +194,650 @@ theorem execRows_cash {mult : Option K} : ∀ (rows : List (Int × BRow K)) {w w
 
 end cash
 end Bt.PProgR
+
+namespace Bt.PProgR
+open Bt Bt.P08 Bt.Prog Bt.Blotter Bt.FI
+
+section upd
+variable {K : Type} [Field K] [LinearOrder K] [IsStrictOrderedRing K] [HasFloor K]
+variable {cfg : Cfg K}
+
+/-! ### `root.update`: the cash moves by the carry parked on the securities, commission function and multipliers stay -/
+
+/-- multiplier of a node (a sub-strategy has none: 0) -/
+def nmult : Node K → K
+  | .sec s => s.mult
+  | .strat _ _ => 0
+
+theorem multAt_eq (w : World K) (sd : StratData K) (ks : List (Node K)) (h : w.root = .strat sd ks) (j : Nat) :
+    multAt w j = ((ks.map nmult)[j]?).getD 0 := by
+  simp only [multAt, h, List.getElem?_map]
+  cases ks[j]? with
+  | none => rfl
+  | some k => cases k <;> rfl
+
+theorem stratDateChange_comm (d : Nat) (sd : StratData K) : (stratDateChange d sd).1.comm = sd.comm := by
+  unfold stratDateChange
+  cases h : sd.now with
+  | none => rfl
+  | some n => dsimp only; split <;> rfl
+
+theorem stratSetTotals_comm (d : Nat) (sd : StratData K) (val notl bo : K) : (stratSetTotals d sd val notl bo).comm = sd.comm := by
+  unfold stratSetTotals; dsimp only; split <;> rfl
+
+theorem stratWrite_comm {d : Nat} {newpt : Bool} {sd sd3 : StratData K} {val notl bo : K}
+    (h : stratWrite cfg d newpt sd val notl bo = .ok sd3) : sd3.comm = sd.comm := by
+  rcases FI.stratWrite_inv cfg d newpt sd sd3 val notl bo h with ⟨_, rfl⟩ | ⟨_, ret, _, rfl⟩
+  · rfl
+  · exact stratSetTotals_comm d sd val notl bo
+
+theorem stratRows_comm (d : Nat) (sd : StratData K) : (stratRows d sd).comm = sd.comm := by
+  unfold stratRows; dsimp only; split <;> rfl
+
+theorem stratRows_capital (d : Nat) (sd : StratData K) : (stratRows d sd).capital = sd.capital := by
+  unfold stratRows; dsimp only; split <;> rfl
+
+theorem stratDateChange_now (d : Nat) (sd : StratData K) : (stratDateChange d sd).1.now = some d := by
+  unfold stratDateChange
+  cases h : sd.now with
+  | none => rfl
+  | some n =>
+    dsimp only
+    split <;> rfl
+
+theorem stratSetTotals_now (d : Nat) (sd : StratData K) (val notl bo : K) : (stratSetTotals d sd val notl bo).now = sd.now := by
+  unfold stratSetTotals; dsimp only; split <;> rfl
+
+theorem stratWrite_now {d : Nat} {newpt : Bool} {sd sd3 : StratData K} {val notl bo : K}
+    (h : stratWrite cfg d newpt sd val notl bo = .ok sd3) : sd3.now = sd.now := by
+  rcases FI.stratWrite_inv cfg d newpt sd sd3 val notl bo h with ⟨_, rfl⟩ | ⟨_, ret, _, rfl⟩
+  · rfl
+  · exact stratSetTotals_now d sd val notl bo
+
+theorem stratRows_now (d : Nat) (sd : StratData K) : (stratRows d sd).now = sd.now := by
+  unfold stratRows; dsimp only; split <;> rfl
+
+theorem sweepSec_mult (np : Bool) (s : SecData K) (acc : Acc K) : (sweepSec np s acc).1.mult = s.mult := by
+  unfold sweepSec; cases np <;> rfl
+
+/-- the children loop of `update` over securities: same multipliers -/
+theorem updKids_mult {d : Nat} {newpt bo : Bool} : ∀ (ks : List (Node K)) (acc : Acc K) (ks' : List (Node K)) (acc' : Acc K),
+    (∀ k ∈ ks, k.isSec = true) → updKids cfg d newpt bo ks acc = .ok (ks', acc') → ks'.map nmult = ks.map nmult
+  | [], acc, ks', acc', _, h => by
+    rw [updKids] at h; cases h; rfl
+  | .strat sd kk :: ks, acc, ks', acc', hs, h => by
+    have := hs (.strat sd kk) (List.mem_cons_self ..)
+    simp [Node.isSec] at this
+  | .sec s :: ks, acc, ks', acc', hs, h => by
+    rw [updKids_sec] at h
+    have hs' : ∀ k ∈ ks, k.isSec = true := fun k hk => hs k (List.mem_cons_of_mem _ hk)
+    split at h
+    · obtain ⟨r, hr, he⟩ := map_eq_ok h
+      cases he
+      have hb := updKids_mult ks _ r.1 r.2 hs' hr
+      simp only [List.map_cons, nmult, sweepSec_mult, hb]
+    · obtain ⟨s1, h1, h⟩ := bind_eq_ok h
+      obtain ⟨r, hr, he⟩ := map_eq_ok h
+      cases he
+      have hb := updKids_mult ks _ r.1 r.2 hs' hr
+      simp only [List.map_cons, nmult, hb]
+      rw [secUpdate_mult h1, sweepSec_mult]
+
+theorem kidsWeights_mult (fi : Bool) (val notl : K) (ks : List (Node K)) :
+    (kidsWeights cfg fi val notl ks).map nmult = ks.map nmult := by
+  unfold kidsWeights
+  rw [List.map_map]
+  refine List.map_congr_left fun k _ => ?_
+  simp only [Function.comp]
+  split
+  · rfl
+  · cases k <;> rfl
+
+/-- carry (coupon less holding cost) parked on the root's securities -/
+def parked (w : World K) : K :=
+  match w.root with
+  | .strat _ ks => kidsParked ks
+  | .sec _ => 0
+
+/-- clock of the root -/
+def rootNow (w : World K) : Option Nat :=
+  match w.root with
+  | .strat sd _ => sd.now
+  | .sec _ => none
+
+/-- **`root.update` that does not end flagged**: the root's cash goes up by the carry parked on its securities when the date is
+    new (and stays otherwise); commission function and multipliers stay -/
+theorem updRoot_cash {d : Nat} {w w' : World K} (hf : Flat w) (h : updRoot cfg d w = .ok w') (hb : w'.bankrupt = false) :
+    rootCap w' = rootCap w + (if rootNow w ≠ some d then parked w else 0) ∧ rootComm w' = rootComm w ∧
+      (∀ j, multAt w' j = multAt w j) ∧ rootNow w' = some d := by
+  obtain ⟨sd, ks, hr, hs⟩ := hf
+  obtain ⟨v, hv⟩ := P16.rootTotal_of_updRoot h
+  have hflag := P16.updRoot_bankrupt hv h
+  rw [hb] at hflag
+  obtain ⟨root, st⟩ := w
+  simp only at hr
+  subst hr
+  rw [updRoot_strat] at h
+  obtain ⟨r, hk, h⟩ := bind_eq_ok h
+  have hv' : v = r.2.val + r.2.coupons := by
+    simp only [P16.rootTotal, hk, P08.map_ok] at hv
+    cases hv; rfl
+  have hcond : bankruptCond cfg (stratDateChange d sd).1 (r.2.val + r.2.coupons) = false := by
+    rw [P16.bankruptCond_eq]
+    have h1 : (World.bankrupt ⟨Node.strat sd ks, st⟩ || P16.trigger cfg (World.rootFI ⟨Node.strat sd ks, st⟩) v) = false :=
+      hflag.symm
+    rw [Bool.or_eq_false_iff] at h1
+    have hfi : (stratDateChange d sd).1.fixedIncome = sd.fixedIncome := by
+      unfold stratDateChange; split
+      · rfl
+      · split <;> rfl
+    rw [hfi, ← hv']
+    have h2 : P16.trigger cfg sd.fixedIncome v = false := h1.2
+    rw [h2]; simp
+  rw [hcond] at h
+  simp only [Bool.false_eq_true, ↓reduceIte] at h
+  obtain ⟨n, hn, rfl⟩ := map_eq_ok h
+  unfold stratFinish at hn
+  obtain ⟨sd3, hw3, rfl⟩ := map_eq_ok hn
+  obtain ⟨r1, r2⟩ := r
+  have hmk := updKids_mult ks _ r1 r2 hs hk
+  obtain ⟨_, hc, _⟩ := FI.updKids_spec cfg d _ _ ks r1 _ r2 hk
+  dsimp only at hc
+  rw [zero_add] at hc
+  obtain ⟨w1, _⟩ := FI.stratWrite_frame cfg d _ _ sd3 _ _ _ hw3
+  dsimp only at w1
+  have hnp : (stratDateChange d sd).2 = decide (sd.now ≠ some d) := by
+    rw [Bool.eq_iff_iff, stratDateChange_snd]; simp
+  refine ⟨?_, ?_, fun j => ?_, ?_⟩
+  · simp only [rootCap, rootNow, parked]
+    rw [stratRows_capital, w1, (FI.stratDateChange_frame d sd).1, hc, hnp]
+    by_cases hd : sd.now = some d <;> simp [hd]
+  · simp only [rootComm]
+    rw [stratRows_comm, stratWrite_comm hw3]
+    exact stratDateChange_comm d sd
+  · rw [multAt_eq _ _ _ rfl j, multAt_eq ⟨Node.strat sd ks, st⟩ sd ks rfl j, kidsWeights_mult, hmk]
+  · simp only [rootNow]
+    rw [stratRows_now, stratWrite_now hw3]
+    exact stratDateChange_now d sd
+
+/-! ### the row loop keeps the root's clock and what is parked; one day of the loop -/
+
+theorem foldl_adjust_now : ∀ (l : List (Adj K)) (sd : StratData K), (l.foldl StratData.adjust sd).now = sd.now
+  | [], _ => rfl
+  | a :: l, sd => by rw [List.foldl_cons, foldl_adjust_now l]; rfl
+
+theorem execRow_now {mult : Option K} {w w' : World K} {r : Int × BRow K} (h : execRow cfg mult [] w r = .ok w') :
+    rootNow w' = rootNow w := by
+  obtain ⟨stamp, i, q, px⟩ := r
+  simp only [execRow, opTransact, World.modify, List.nil_append] at h
+  obtain ⟨⟨root', adjs, st⟩, hm, hw'⟩ := map_eq_ok h
+  subst hw'
+  obtain ⟨root, stale⟩ := w
+  cases root with
+  | sec s => simp only [modAt] at hm; cases hm
+  | strat sd ks =>
+    simp only [modAt] at hm
+    cases hki : ks[i]? with
+    | none => rw [hki] at hm; cases hm
+    | some k =>
+      rw [hki] at hm
+      obtain ⟨⟨k', adjs', st'⟩, hk', hroot⟩ := map_eq_ok hm
+      simp only [Prod.mk.injEq] at hroot
+      obtain ⟨rfl, -, -⟩ := hroot
+      simp only [rootNow]
+      exact foldl_adjust_now adjs' sd
+
+theorem execRows_now {mult : Option K} : ∀ (rows : List (Int × BRow K)) {w w' : World K},
+    execRows cfg mult [] rows w = .ok w' → rootNow w' = rootNow w
+  | [], w, w', h => by rw [execRows_nil] at h; cases h; rfl
+  | r :: rest, w, w', h => by
+    rw [execRows_cons] at h
+    obtain ⟨w1, h1, h2⟩ := bind_eq_ok h
+    rw [execRows_now rest h2, execRow_now h1]
+
+/-- **one day** of a backtest of a flat blotter-driven strategy that ends unflagged: the root's cash goes up by the carry its
+    securities parked on the earlier date (the opening update sweeps it; the two later updates of the date sweep nothing) and down
+    by the cost of every row of the day's window, each row priced on its own at its listed price -/
+theorem btDay_cash (p : ProgR K) {d : Nat} {w w' : World K} (hf : Flat w)
+    (h : btDay cfg (progRunR cfg p []) d w = .ok w') (hb : w'.bankrupt = false) :
+    rootCap w' = rootCap w + (if rootNow w ≠ some d then parked w else 0)
+        - costSum cfg p.mult w (select p.timeline d p.rows) ∧
+      rootComm w' = rootComm w ∧ (∀ j, multAt w' j = multAt w j) ∧ rootNow w' = some d := by
+  unfold btDay at h
+  obtain ⟨w1, h1, h⟩ := bind_eq_ok h
+  split at h
+  · rename_i hw1; cases h; rw [hb] at hw1; cases hw1
+  · rename_i hw1
+    have hb1 : w1.bankrupt = false := by simpa using hw1
+    obtain ⟨w3, h3, h4⟩ := bind_eq_ok h
+    simp only [progRunR] at h3
+    obtain ⟨w2, h2, h3⟩ := bind_eq_ok h3
+    have hb3 : w3.bankrupt = false := updRoot_not_bankrupt h4 hb
+    obtain ⟨hf1, _⟩ := updRoot_pos hf h1 hb1
+    obtain ⟨hf2, _⟩ := execRows_pos _ hf1 h2
+    obtain ⟨hf3, _⟩ := updRoot_pos hf2 h3 hb3
+    obtain ⟨c1, k1, m1, n1⟩ := updRoot_cash hf h1 hb1
+    obtain ⟨c2, k2, m2⟩ := execRows_cash _ hf1 h2
+    have n2 : rootNow w2 = some d := (execRows_now _ h2).trans n1
+    obtain ⟨c3, k3, m3, n3⟩ := updRoot_cash hf2 h3 hb3
+    obtain ⟨c4, k4, m4, n4⟩ := updRoot_cash hf3 h4 hb
+    refine ⟨?_, ((k4.trans k3).trans k2).trans k1, fun j => (((m4 j).trans (m3 j)).trans (m2 j)).trans (m1 j), n4⟩
+    rw [c4, c3, c2, c1, costSum_congr k1 m1]
+    simp [n2, n3]
+
+end upd
+end Bt.PProgR
+
+namespace Bt.PProgR
+open Bt Bt.P08 Bt.Prog Bt.Blotter
+
+/-! ### the windows partition the frame, for any per-row amount (generic copy of the lemmas about `qsum`) -/
+section gwindows
+variable {K : Type} [Field K] [LinearOrder K] [IsStrictOrderedRing K] [HasFloor K]
+variable {f : Int × BRow K → K}
+
+/-- sum of a per-row amount over a list of rows -/
+def gsum (f : Int × BRow K → K) : List (Int × BRow K) → K
+  | [] => 0
+  | r :: rs => f r + gsum f rs
+
+/-- … and over the windows of a list of dates -/
+def gdaysSum (f : Int × BRow K → K) (tl : List Int) (rows : List (Int × BRow K)) : List Nat → K
+  | [] => 0
+  | d :: ds => gsum f (select tl d rows) + gdaysSum f tl rows ds
+
+theorem gsum_select_cons (tl : List Int) (d : Nat) (r : Int × BRow K) (rs : List (Int × BRow K)) :
+    gsum f (select tl d (r :: rs)) = (if inWindow tl d r.1 = true then f r else 0) + gsum f (select tl d rs) := by
+  unfold select
+  rw [List.filter_cons]
+  split
+  · rfl
+  · exact (zero_add _).symm
+
+/-- the sum over the days of what a single row contributes -/
+def growDays (f : Int × BRow K → K) (tl : List Int) (r : Int × BRow K) : List Nat → K
+  | [] => 0
+  | d :: ds => (if inWindow tl d r.1 = true then f r else 0) + growDays f tl r ds
+
+theorem gdaysSum_nil (tl : List Int) : ∀ ds : List Nat, gdaysSum f tl ([] : List (Int × BRow K)) ds = 0
+  | [] => rfl
+  | d :: ds => by rw [gdaysSum, gdaysSum_nil tl ds]; simp [select, gsum]
+
+theorem gdaysSum_cons (tl : List Int) (r : Int × BRow K) (rs : List (Int × BRow K)) :
+    ∀ ds : List Nat, gdaysSum f tl (r :: rs) ds = growDays f tl r ds + gdaysSum f tl rs ds
+  | [] => by simp [gdaysSum, growDays]
+  | d :: ds => by
+    rw [gdaysSum, gdaysSum, growDays, gsum_select_cons, gdaysSum_cons tl r rs ds]
+    ac_rfl
+
+theorem growDays_none (tl : List Int) (r : Int × BRow K) :
+    ∀ ds : List Nat, (∀ d ∈ ds, inWindow tl d r.1 = false) → growDays f tl r ds = 0
+  | [], _ => rfl
+  | d :: ds, h => by
+    rw [growDays, h d (List.mem_cons_self ..), growDays_none tl r ds fun x hx => h x (List.mem_cons_of_mem _ hx)]
+    simp
+
+/-- a row picked by exactly one of the (distinct) dates is counted once -/
+theorem growDays_one (tl : List Int) (r : Int × BRow K) (d0 : Nat) (h0 : inWindow tl d0 r.1 = true) :
+    ∀ ds : List Nat, ds.Nodup → d0 ∈ ds → (∀ d ∈ ds, d ≠ d0 → inWindow tl d r.1 = false) →
+      growDays f tl r ds = f r
+  | [], _, hm, _ => by cases hm
+  | d :: ds, hnd, hm, hoth => by
+    rw [growDays]
+    rw [List.nodup_cons] at hnd
+    by_cases hd : d = d0
+    · subst hd
+      rw [if_pos h0, growDays_none tl r ds fun x hx => hoth x (List.mem_cons_of_mem _ hx) (fun e => hnd.1 (e ▸ hx))]
+      simp
+    · have : d0 ∈ ds := by
+        rcases List.mem_cons.1 hm with e | e
+        · exact absurd e.symm hd
+        · exact e
+      rw [hoth d (List.mem_cons_self ..) hd,
+        growDays_one tl r d0 h0 ds hnd.2 this fun x hx => hoth x (List.mem_cons_of_mem _ hx)]
+      simp
+
+/-- on an increasing timeline `a = tl[0] < … < tl[n] = b` (length `n + 1`): the rows of the windows `1..n` are the rows
+    stamped in `(a, b]`, each in exactly one window -/
+theorem growDays_range (tl : List Int) (hs : tl.Pairwise (· < ·)) (n : Nat) (hlen : tl.length = n + 1)
+    (a b : Int) (ha : tl[0]? = some a) (hb : tl[n]? = some b) (r : Int × BRow K) :
+    growDays f tl r (List.range' 1 n) = if a < r.1 ∧ r.1 ≤ b then f r else 0 := by
+  by_cases hin : a < r.1 ∧ r.1 ≤ b
+  · rw [if_pos hin]
+    obtain ⟨d0, h0⟩ := C04.window_covers tl r.1 ⟨b, List.mem_of_getElem? hb, hin.2⟩
+    have hd0lt : d0 < n + 1 := hlen ▸ inWindow_lt_length h0
+    have hd0pos : d0 ≠ 0 := by
+      rintro rfl
+      rw [inWindow_zero ha] at h0
+      have : r.1 ≤ a := by simpa using h0
+      omega
+    refine growDays_one tl r d0 h0 _ (List.nodup_range' (step := 1) (by omega)) ?_ ?_
+    · rw [List.mem_range'_1]; omega
+    · intro d _ hne
+      rcases Nat.lt_or_gt_of_ne hne with hlt | hgt
+      · cases hdw : inWindow tl d r.1 with
+        | false => rfl
+        | true =>
+          have := C04.window_disjoint tl hs d d0 hlt r.1 hdw
+          rw [h0] at this; cases this
+      · exact C04.window_disjoint tl hs d0 d hgt r.1 h0
+  · rw [if_neg hin]
+    refine growDays_none tl r _ fun d hd => ?_
+    rw [List.mem_range'_1] at hd
+    cases hdw : inWindow tl d r.1 with
+    | false => rfl
+    | true =>
+      exfalso
+      apply hin
+      have hdlt : d < tl.length := inWindow_lt_length hdw
+      constructor
+      · -- not in window 0 (disjoint), so `a < stamp`
+        have h0f : inWindow tl 0 r.1 = false := by
+          cases h0w : inWindow tl 0 r.1 with
+          | false => rfl
+          | true =>
+            have := C04.window_disjoint tl hs 0 d (by omega) r.1 h0w
+            rw [hdw] at this; cases this
+        rw [inWindow_zero ha] at h0f
+        have : ¬ r.1 ≤ a := by simpa using h0f
+        omega
+      · -- `stamp ≤ tl[d] ≤ tl[n]`
+        have hle := C04.inWindow_le (List.getElem?_eq_getElem hdlt) hdw
+        have hnlt : n < tl.length := by omega
+        have hbn : b = tl[n] := by
+          rw [List.getElem?_eq_getElem hnlt] at hb; exact (Option.some.inj hb).symm
+        rcases Nat.lt_or_ge d n with hlt | hge
+        · have := List.pairwise_iff_getElem.mp hs d n hdlt hnlt hlt
+          omega
+        · have : d = n := by omega
+          subst this; omega
+
+/-- **each row exactly once**: the sum over the windows of rows `1..n` is the sum over the rows stamped in `(a, b]` -/
+theorem gdaysSum_range (tl : List Int) (hs : tl.Pairwise (· < ·)) (n : Nat) (hlen : tl.length = n + 1)
+    (a b : Int) (ha : tl[0]? = some a) (hb : tl[n]? = some b) :
+    ∀ rows : List (Int × BRow K), gdaysSum f tl rows (List.range' 1 n) =
+      gsum f (rows.filter fun r => decide (a < r.1 ∧ r.1 ≤ b))
+  | [] => by rw [gdaysSum_nil]; rfl
+  | r :: rs => by
+    rw [gdaysSum_cons, growDays_range tl hs n hlen a b ha hb r, gdaysSum_range tl hs n hlen a b ha hb rs, List.filter_cons]
+    by_cases hin : a < r.1 ∧ r.1 ≤ b
+    · rw [if_pos hin, if_pos (by simpa using hin), gsum]
+    · rw [if_neg hin, if_neg (by simpa using hin), zero_add]
+
+
+end gwindows
+end Bt.PProgR
+
+namespace Bt.PProgR
+open Bt Bt.P08 Bt.Prog Bt.Blotter
+
+/-! ### books without carry: the whole run -/
+section dry
+variable {K : Type} [Field K] [LinearOrder K] [IsStrictOrderedRing K] [HasFloor K]
+variable {cfg : Cfg K}
+
+/-- a security that parks nothing: not coupon-paying, nothing parked -/
+def DrySec (s : SecData K) : Prop := s.capital = 0 ∧ s.kind ≠ .coupon ∧ s.kind ≠ .couponHedge
+
+/-- a flat root all of whose securities park nothing -/
+def Dry (w : World K) : Prop := ∃ sd ks, w.root = .strat sd ks ∧ ∀ k ∈ ks, ∃ s, k = .sec s ∧ DrySec s
+
+theorem Dry.flat {w : World K} (h : Dry w) : Flat w := by
+  obtain ⟨sd, ks, hr, hs⟩ := h
+  exact ⟨sd, ks, hr, fun k hk => by obtain ⟨s, rfl, _⟩ := hs k hk; rfl⟩
+
+theorem kidsParked_dry : ∀ ks : List (Node K), (∀ k ∈ ks, ∃ s, k = .sec s ∧ DrySec s) → FI.kidsParked ks = 0
+  | [], _ => rfl
+  | k :: ks, h => by
+    obtain ⟨s, rfl, hd⟩ := h k (List.mem_cons_self ..)
+    rw [FI.kidsParked, hd.1, kidsParked_dry ks fun x hx => h x (List.mem_cons_of_mem _ hx), add_zero]
+
+theorem Dry.parked {w : World K} (h : Dry w) : parked w = 0 := by
+  obtain ⟨sd, ks, hr, hs⟩ := h
+  simp only [PProgR.parked, hr]
+  exact kidsParked_dry ks hs
+
+theorem secBaseUpdate_capital {d : Nat} {s s1 : SecData K} (h : secBaseUpdate cfg d s = .ok s1) : s1.capital = s.capital := by
+  rcases secBaseUpdate_cases h with ⟨_, rfl⟩ | ⟨_, v, _, rfl⟩
+  · rfl
+  · simp
+
+theorem secUpdate_dry {d : Nat} {s s' : SecData K} (hd : DrySec s) (h : secUpdate cfg d s = .ok s') : DrySec s' := by
+  have ht := P16.secUpdate_tag h
+  have hk : s'.kind = s.kind := by
+    have := congrArg (fun t => t.2.1) (show (s'.name, s'.kind, s'.fixedIncome) = (s.name, s.kind, s.fixedIncome) from by
+      have := ht; simp only [P16.secTag, P16.SecTag.mk.injEq] at this; exact Prod.ext this.1 (Prod.ext this.2.1 this.2.2))
+    exact this
+  rw [secUpdate_eq] at h
+  obtain ⟨s1, hb, htl⟩ := bind_eq_ok h
+  have hc1 := secBaseUpdate_capital hb
+  refine ⟨?_, hk ▸ hd.2.1, hk ▸ hd.2.2⟩
+  cases hkind : s.kind with
+  | plain => rw [hkind] at htl; cases htl; rw [hc1, hd.1]
+  | fi => rw [hkind] at htl; cases htl; simp [hc1, hd.1]
+  | hedge => rw [hkind] at htl; cases htl; simp [hc1, hd.1]
+  | coupon => exact absurd hkind hd.2.1
+  | couponHedge => exact absurd hkind hd.2.2
+
+theorem secRefresh_dry {pn : Option Nat} {s s' : SecData K} (hd : DrySec s) (h : secRefresh cfg pn s = .ok s') : DrySec s' := by
+  unfold secRefresh at h
+  split at h
+  · cases pn with
+    | none => cases h
+    | some d => exact secUpdate_dry hd h
+  · cases h; exact hd
+
+theorem secTransactCore_dry {comm : K → K → K} {s : SecData K} {q : K} {custom : Option K} {r : SecData K × Option (Adj K)}
+    (hd : DrySec s) (h : secTransactCore cfg comm s q custom = .ok r) : DrySec r.1 := by
+  unfold secTransactCore at h
+  split at h
+  · cases h; exact hd
+  · split at h
+    · cases h
+    · obtain ⟨⟨full, outlay, fee, bo⟩, _, h⟩ := bind_eq_ok h
+      cases h; exact hd
+
+theorem execRow_dry {mult : Option K} {w w' : World K} {r : Int × BRow K} (hd : Dry w)
+    (h : execRow cfg mult [] w r = .ok w') : Dry w' := by
+  obtain ⟨sd, ks, hr, hs⟩ := hd
+  obtain ⟨stamp, i, q, px⟩ := r
+  simp only [execRow, opTransact, World.modify, List.nil_append] at h
+  obtain ⟨⟨root', adjs, st⟩, hm, hw'⟩ := map_eq_ok h
+  rw [hr] at hm
+  simp only [modAt] at hm
+  cases hki : ks[i]? with
+  | none => rw [hki] at hm; cases hm
+  | some k =>
+    rw [hki] at hm
+    obtain ⟨s, rfl, hds⟩ := hs k (List.mem_of_getElem? hki)
+    obtain ⟨⟨k', adjs', st'⟩, hk', hroot⟩ := map_eq_ok hm
+    obtain ⟨⟨s', a⟩, hs', hk''⟩ := map_eq_ok hk'
+    simp only [Prod.mk.injEq] at hk'' hroot
+    obtain ⟨rfl, -, -⟩ := hk''
+    obtain ⟨rfl, -, -⟩ := hroot
+    subst hw'
+    unfold secTransact at hs'
+    simp only [if_true] at hs'
+    obtain ⟨s1, h1, h2⟩ := bind_eq_ok hs'
+    have hd' : DrySec s' := secTransactCore_dry (secRefresh_dry hds h1) h2
+    refine ⟨_, _, rfl, fun k hk => ?_⟩
+    rcases List.mem_or_eq_of_mem_set hk with hk | hk
+    · exact hs k hk
+    · exact ⟨s', hk, hd'⟩
+
+theorem execRows_dry {mult : Option K} : ∀ (rows : List (Int × BRow K)) {w w' : World K}, Dry w →
+    execRows cfg mult [] rows w = .ok w' → Dry w'
+  | [], w, w', hd, h => by rw [execRows_nil] at h; cases h; exact hd
+  | r :: rest, w, w', hd, h => by
+    rw [execRows_cons] at h
+    obtain ⟨w1, h1, h2⟩ := bind_eq_ok h
+    exact execRows_dry rest (execRow_dry hd h1) h2
+
+theorem sweepSec_dry (np : Bool) (s : SecData K) (acc : Acc K) (hd : DrySec s) : DrySec (sweepSec np s acc).1 := by
+  unfold sweepSec; cases np
+  · exact hd
+  · exact ⟨rfl, hd.2.1, hd.2.2⟩
+
+theorem updKids_dry {d : Nat} {newpt bo : Bool} : ∀ (ks : List (Node K)) (acc : Acc K) (ks' : List (Node K)) (acc' : Acc K),
+    (∀ k ∈ ks, ∃ s, k = .sec s ∧ DrySec s) → updKids cfg d newpt bo ks acc = .ok (ks', acc') →
+    ∀ k ∈ ks', ∃ s, k = .sec s ∧ DrySec s
+  | [], acc, ks', acc', _, h => by
+    rw [updKids] at h; cases h; exact fun _ hk => (by cases hk)
+  | .strat sd kk :: ks, acc, ks', acc', hs, h => by
+    obtain ⟨s, hk, _⟩ := hs (.strat sd kk) (List.mem_cons_self ..)
+    cases hk
+  | .sec s :: ks, acc, ks', acc', hs, h => by
+    rw [updKids_sec] at h
+    obtain ⟨s0, hs0, hd0⟩ := hs (.sec s) (List.mem_cons_self ..)
+    cases hs0
+    have hs' : ∀ k ∈ ks, ∃ s, k = .sec s ∧ DrySec s := fun k hk => hs k (List.mem_cons_of_mem _ hk)
+    split at h
+    · obtain ⟨r, hr, he⟩ := map_eq_ok h
+      cases he
+      have ha := updKids_dry ks _ r.1 r.2 hs' hr
+      intro k hk
+      rcases List.mem_cons.1 hk with rfl | hk
+      · exact ⟨_, rfl, sweepSec_dry _ _ _ hd0⟩
+      · exact ha k hk
+    · obtain ⟨s1, h1, h⟩ := bind_eq_ok h
+      obtain ⟨r, hr, he⟩ := map_eq_ok h
+      cases he
+      have ha := updKids_dry ks _ r.1 r.2 hs' hr
+      intro k hk
+      rcases List.mem_cons.1 hk with rfl | hk
+      · exact ⟨_, rfl, secUpdate_dry (sweepSec_dry _ _ _ hd0) h1⟩
+      · exact ha k hk
+
+theorem kidsWeights_dry (fi : Bool) (val notl : K) (ks : List (Node K)) (hs : ∀ k ∈ ks, ∃ s, k = .sec s ∧ DrySec s) :
+    ∀ k ∈ kidsWeights cfg fi val notl ks, ∃ s, k = .sec s ∧ DrySec s := by
+  unfold kidsWeights
+  intro k hk
+  obtain ⟨k0, hk0, rfl⟩ := List.mem_map.1 hk
+  obtain ⟨s, rfl, hd⟩ := hs k0 hk0
+  split
+  · exact ⟨s, rfl, hd⟩
+  · exact ⟨_, rfl, hd⟩
+
+/-- `root.update` that does not end flagged keeps a book without carry without carry -/
+theorem updRoot_dry {d : Nat} {w w' : World K} (hdry : Dry w) (h : updRoot cfg d w = .ok w') (hb : w'.bankrupt = false) : Dry w' := by
+  obtain ⟨sd, ks, hr, hs⟩ := hdry
+  obtain ⟨v, hv⟩ := P16.rootTotal_of_updRoot h
+  have hflag := P16.updRoot_bankrupt hv h
+  rw [hb] at hflag
+  obtain ⟨root, st⟩ := w
+  simp only at hr
+  subst hr
+  rw [updRoot_strat] at h
+  obtain ⟨r, hk, h⟩ := bind_eq_ok h
+  have hv' : v = r.2.val + r.2.coupons := by
+    simp only [P16.rootTotal, hk, P08.map_ok] at hv
+    cases hv; rfl
+  have hcond : bankruptCond cfg (stratDateChange d sd).1 (r.2.val + r.2.coupons) = false := by
+    rw [P16.bankruptCond_eq]
+    have h1 : (World.bankrupt ⟨Node.strat sd ks, st⟩ || P16.trigger cfg (World.rootFI ⟨Node.strat sd ks, st⟩) v) = false :=
+      hflag.symm
+    rw [Bool.or_eq_false_iff] at h1
+    have hfi : (stratDateChange d sd).1.fixedIncome = sd.fixedIncome := by
+      unfold stratDateChange; split
+      · rfl
+      · split <;> rfl
+    rw [hfi, ← hv']
+    have h2 : P16.trigger cfg sd.fixedIncome v = false := h1.2
+    rw [h2]; simp
+  rw [hcond] at h
+  simp only [Bool.false_eq_true, ↓reduceIte] at h
+  obtain ⟨n, hn, rfl⟩ := map_eq_ok h
+  unfold stratFinish at hn
+  obtain ⟨sd3, hw3, rfl⟩ := map_eq_ok hn
+  obtain ⟨r1, r2⟩ := r
+  exact ⟨_, _, rfl, kidsWeights_dry _ _ _ r1 (updKids_dry ks _ r1 r2 hs hk)⟩
+
+/-- **one day** on a book without carry: the cash goes down by the cost of the day's rows -/
+theorem btDay_cash_dry (p : ProgR K) {d : Nat} {w w' : World K} (hdry : Dry w)
+    (h : btDay cfg (progRunR cfg p []) d w = .ok w') (hb : w'.bankrupt = false) :
+    Dry w' ∧ rootCap w' = rootCap w - costSum cfg p.mult w (select p.timeline d p.rows) ∧
+      rootComm w' = rootComm w ∧ ∀ j, multAt w' j = multAt w j := by
+  obtain ⟨c, k, m, _⟩ := btDay_cash p hdry.flat h hb
+  refine ⟨?_, by rw [c, hdry.parked]; simp, k, m⟩
+  unfold btDay at h
+  obtain ⟨w1, h1, h⟩ := bind_eq_ok h
+  split at h
+  · rename_i hw1; cases h; rw [hb] at hw1; cases hw1
+  · rename_i hw1
+    have hb1 : w1.bankrupt = false := by simpa using hw1
+    obtain ⟨w3, h3, h4⟩ := bind_eq_ok h
+    simp only [progRunR] at h3
+    obtain ⟨w2, h2, h3⟩ := bind_eq_ok h3
+    have hb3 : w3.bankrupt = false := updRoot_not_bankrupt h4 hb
+    exact updRoot_dry (updRoot_dry (execRows_dry _ (updRoot_dry hdry h1 hb1) h2) h3 hb3) h4 hb
+
+theorem costSum_eq_gsum (mult : Option K) (w : World K) : ∀ rows : List (Int × BRow K),
+    costSum cfg mult w rows = gsum (rowCost cfg mult w) rows
+  | [] => rfl
+  | r :: rs => by rw [costSum, gsum, costSum_eq_gsum mult w rs]
+
+/-- **the loop** on a book without carry: the sum over the days, at the commission function and multipliers of the start -/
+theorem btLoop_cash_dry (p : ProgR K) : ∀ (ds : List Nat) {w w' : World K}, Dry w →
+    btLoop cfg (progRunR cfg p []) ds w = .ok w' → w'.bankrupt = false →
+    Dry w' ∧ rootCap w' = rootCap w - gdaysSum (rowCost cfg p.mult w) p.timeline p.rows ds ∧
+      rootComm w' = rootComm w ∧ ∀ j, multAt w' j = multAt w j
+  | [], w, w', hd, h, _ => by
+    rw [btLoop] at h; cases h
+    exact ⟨hd, by simp [gdaysSum], rfl, fun _ => rfl⟩
+  | d :: ds, w, w', hd, h, hb => by
+    rw [btLoop] at h
+    obtain ⟨w1, h1, h2⟩ := bind_eq_ok h
+    have hb1 : w1.bankrupt = false := btLoop_not_bankrupt ds h2 hb
+    obtain ⟨hd1, c1, k1, m1⟩ := btDay_cash_dry p hd h1 hb1
+    obtain ⟨hd2, c2, k2, m2⟩ := btLoop_cash_dry p ds hd1 h2 hb
+    refine ⟨hd2, ?_, k2.trans k1, fun j => (m2 j).trans (m1 j)⟩
+    have e : rowCost cfg p.mult w1 = rowCost cfg p.mult w := funext fun r => rowCost_congr k1 m1 r
+    rw [c2, c1, e, gdaysSum, costSum_eq_gsum]
+    ring
+
+end dry
+end Bt.PProgR
+
+namespace Bt.PProgR
+open Bt Bt.P08 Bt.Prog Bt.Blotter
+
+section run
+variable {K : Type} [Field K] [LinearOrder K] [IsStrictOrderedRing K] [HasFloor K]
+variable {cfg : Cfg K}
+
+/-- `adjust(amount)` on the root: the cash goes up by the amount; the book is as it was -/
+theorem opAdjust_root_cash {w w' : World K} {amount : K} {u fl : Bool} (hd : Dry w)
+    (h : opAdjust w [] amount u fl = .ok w') :
+    Dry w' ∧ rootCap w' = rootCap w + amount ∧ rootComm w' = rootComm w ∧ ∀ j, multAt w' j = multAt w j := by
+  obtain ⟨sd, ks, hr, hs⟩ := hd
+  simp only [opAdjust, World.modify] at h
+  obtain ⟨⟨root', adjs, st⟩, hm, hw'⟩ := map_eq_ok h
+  rw [hr] at hm
+  simp only [modAt] at hm
+  cases hm
+  subst hw'
+  refine ⟨⟨_, _, rfl, hs⟩, ?_, ?_, fun j => ?_⟩
+  · simp [rootCap, hr, StratData.adjust]
+  · simp [rootComm, hr, StratData.adjust]
+  · simp [multAt, hr]
+
+/-- **the complete backtest** of a flat blotter-driven strategy on a book without carry: initial capital, first row, loop -/
+theorem btRun_cash_dry (p : ProgR K) {capital : K} {d0 : Nat} {ds : List Nat} {w w' : World K} (hd : Dry w)
+    (h : btRun cfg (progRunR cfg p []) capital (d0 :: ds) w = .ok w') (hb : w'.bankrupt = false) :
+    Dry w' ∧ rootCap w' = rootCap w + capital - gdaysSum (rowCost cfg p.mult w) p.timeline p.rows ds := by
+  simp only [btRun] at h
+  obtain ⟨w1, h1, h⟩ := bind_eq_ok h
+  obtain ⟨w2, h2, h3⟩ := bind_eq_ok h
+  have hb2 : w2.bankrupt = false := btLoop_not_bankrupt ds h3 hb
+  obtain ⟨hd1, c1, k1, m1⟩ := opAdjust_root_cash hd h1
+  have hd2 := updRoot_dry hd1 h2 hb2
+  obtain ⟨c2, k2, m2, _⟩ := updRoot_cash hd1.flat h2 hb2
+  obtain ⟨hd3, c3, _, _⟩ := btLoop_cash_dry p ds hd2 h3 hb
+  refine ⟨hd3, ?_⟩
+  have e : rowCost cfg p.mult w2 = rowCost cfg p.mult w :=
+    funext fun r => rowCost_congr (k2.trans k1) (fun j => (m2 j).trans (m1 j)) r
+  rw [c3, c2, c1, hd1.parked, e]
+  simp
+
+end run
+end Bt.PProgR
